@@ -604,6 +604,41 @@ def rule_doctext(ctx, rep, rid="R-C11-doctext"):
             check("Source::new -> Source.data", b, st[3], ops["data"], ("param", 1), "its own `source` parameter")
 
 
+def rule_origin(ctx, rep, rid="R-C11-origin"):
+    """`check` reports what Project::semantic returns.  The language server reports the same only if every problem it publishes comes out of
+    that one call: a second producer of problems inside LspProject::semantic (the tokenizer, a rule run on the side) makes the published set
+    a different one.  Decided on the unit (function + closures): every call of a workspace function whose result type carries
+    ironplc_dsl Diagnostics and may flow to the return value must be Project::semantic."""
+    from vlib import units
+    r = rep.rule(rid, "the problems LspProject::semantic returns all come out of its one call of Project::semantic: no other workspace call that yields ironplc "
+                      "diagnostics flows to the return value", floor=1, floor_what="producers of diagnostics in LspProject::semantic")
+    bs = [b for b in ctx.prog.get("ironplcc::lsp_project::LspProject::semantic")]
+    if not bs:
+        rep.error(rid, "LspProject::semantic not found")
+        return
+    b = bs[0]
+    DIAG = "ironplc_dsl::diagnostic::Diagnostic"
+    k = {}
+    for body, c, consumer in units.calls_in_unit(ctx, b):
+        nm = c.callee or c.u or ""
+        if not (nm.startswith("ironplc") or nm.startswith("<ironplc") or "ironplcc::" in nm or "ironplc_" in nm):
+            continue
+        ty = body.local_ty(c.dest[0]) if not c.dest[1] else ""
+        if DIAG not in (ty or ""):
+            continue
+        short = nm.split("::")[-1]
+        k[short] = k.get(short, 0) + 1
+        inst = "LspProject::semantic|%s#%d" % (short, k[short])
+        where = loc_str(body.f, c.loc)
+        if short == "semantic" and ("Project" in nm):
+            r.ok(inst, where, "the shared entry point")
+            continue
+        if units.result_reaches_return(ctx, b, body, c):
+            r.finding(inst + "|second-producer", where, "problems produced by %s flow into what the server publishes: `check` does not report them (or reports them differently), so the two answers differ" % nm)
+        else:
+            r.ok(inst, where, "does not reach the returned problems")
+
+
 def run(ctx, rep):
     rep.not_decided += ["equality of published content with a freshly started server", "equality of positions with `check` beyond the shared entry point",
                         "history independence beyond cache coherence and R-C06-hash (hash order depends on insertion history)"]
@@ -617,6 +652,7 @@ def run(ctx, rep):
     rule_idorigin(ctx, rep)
     rule_doctext(ctx, rep)
     rule_nodedup(ctx, rep)
+    rule_origin(ctx, rep)
     # one document, one entry: the key of the project's file table tells distinct paths apart and is ordered the same way in every history
     from rules.c06 import rule_types
     rule_types(ctx, rep, rid="R-C11-fileid")
